@@ -1,2 +1,4 @@
 import B3.Hex.Model
+import B3.Hex.Proofs
+import B3.Hex.Props
 import B3.Hex.Drv
